@@ -7,9 +7,11 @@
 
   Compared-only / oracle-only parts of the statement (no theorem): composition of the real collection
   filters (C02) inside `filter_by_*`, `from_epw_file` cells and interpolation (C01/C13), the sky-model
-  constructors' values (C10), the CLI glue, the order of rows after `validate_analysis_period` (C13).
+  constructors' values (C10), the CLI glue, the rotation of sparse rows for year-wrapping header
+  periods and the repaired header period after `validate_analysis_period` (C13).
 -/
 import Ladybug.Proofs.C12Lemmas
+import Ladybug.Proofs.C12Files
 
 open Cal
 
@@ -379,11 +381,9 @@ example : (⟨12, 31, 0, 1, 1, 23, 2, false⟩ : AP).WF ∧ (⟨12, 31, 0, 1, 1,
     wrapping alike): a file whose first line lies in hour 0 of the period's first day, whose last
     line lies in hour 23 of its last day and which has one line per step of the period is read as a
     continuous Wea over exactly that period, line `i` at step `i` of the enumeration
-    (`C12_wholeDay_steps` gives its minute), values by position.
-    Partial: that the lines *written* for such a Wea have this shape is shown per line
-    (`C12_line_roundtrip*`, `C12_file_first_last`), the list plumbing of `to_file_string` is
-    compared (op `write`) and checked by the oracle, not proved. -/
-theorem C12_file_read_continuous_partial (prod60 : Nat → Rat) (ap : AP) (hwf : ap.WF)
+    (`C12_wholeDay_steps` gives its minute), values by position.  (`C12_file_roundtrip_continuous`
+    shows that `to_file_string` produces exactly such files.) -/
+theorem C12_file_read_continuous (prod60 : Nat → Rat) (ap : AP) (hwf : ap.WF)
     (h0 : ap.st_hour = 0) (h23 : ap.end_hour = 23) (lines : List Line) (first last : Line)
     (hf : lines.head? = some first) (hl : lines.getLast? = some last)
     (hfm : first.month = ap.st_month ∧ first.day = ap.st_day ∧ first.milli / 1000 = 0)
@@ -422,7 +422,7 @@ theorem shift_step (ap : AP) (hwf : ap.WF) (onHour : Bool) :
     (`stMoy + shift`) is written with the period's start month/day and hour 0, the one of the last
     step (`endMoy + 60 − step + shift`) with the end month/day and hour 23 – for every timestep, with
     and without the half-hour shift.  Together with `C12_wholeDay_steps` (which minute each step is)
-    and `C12_file_read_continuous_partial` (what the reader does with such a file) this is the
+    and `C12_file_read_continuous` (what the reader does with such a file) this is the
     round trip of annual and partial whole-day data. -/
 theorem C12_file_first_last (ap : AP) (hwf : ap.WF) (h0 : ap.st_hour = 0) (h23 : ap.end_hour = 23)
     (onHour : Bool) (a b : Rat) :
@@ -455,6 +455,323 @@ theorem C12_file_first_last (ap : AP) (hwf : ap.WF) (h0 : ap.st_hour = 0) (h23 :
   · exact f2.1.1.1.1.1
 
 
+/-- **Write → read is the identity on the time axis and the truncated values, for annual and
+    partial whole-day data** (non-wrapping and wrapping periods, all 12 timesteps, leap or not, with
+    or without the half-hour shift): `to_file_string` of a continuous Wea over a whole-day period
+    produces one line per step, and `from_file` reads these lines back as a continuous Wea over
+    exactly the same period – hence the same datetimes – whose values are the `%d` truncations, by
+    position. -/
+theorem C12_file_roundtrip_continuous (prod60 : Nat → Rat) (ap : AP) (hwf : ap.WF)
+    (h0 : ap.st_hour = 0) (h23 : ap.end_hour = 23) (dni dhi : List Rat) (onHour : Bool) (w : W Rat)
+    (hw : mkCont ap dni dhi = .ok w) :
+    ∃ lines, toLines { w with onHour := onHour } = .ok lines ∧ lines.length = ap.len ∧
+      fromFile prod60 (ap.timestep : Int) ap.leap lines =
+        .ok ⟨true, ap, contDts ap, dni.map Py.truncRat, dhi.map Py.truncRat, false⟩ := by
+  obtain ⟨l1, l2, hw'⟩ := mkCont_inv ap dni dhi w hw
+  have hlen : ap.len = ap.moys.length := AP.C04_len ap hwf
+  have hcl : (contDts ap).length = ap.moys.length := contDts_length ap hwf
+  let F : DT → Except Cal.Err DT := fun d => fromMoy d.leap ((d.moy + shift ap.timestep onHour : Nat) : Int)
+  let W' : W Rat := ⟨true, ap, contDts ap, dni, dhi, onHour⟩
+  have hW : ({ w with onHour := onHour } : W Rat) = W' := by rw [hw']
+  have hD : W'.datetimes = (contDts ap).map F := rfl
+  have hall : ∀ r ∈ W'.datetimes, ∃ d, r = .ok d := by
+    intro r hr
+    rw [hD, List.mem_map] at hr
+    obtain ⟨d, hd, rfl⟩ := hr
+    obtain ⟨d', h1, _⟩ := public_ok ap hwf onHour d hd
+    exact ⟨d', h1⟩
+  have hlines := toLines_eq W' hall
+  rw [hD] at hlines
+  refine ⟨_, by rw [hW]; exact hlines, ?_, ?_⟩
+  · simp [List.length_zip, hcl, l1, l2, hlen, W']
+  · -- index facts
+    have idx : ∀ (i : Nat) (d : DT), (contDts ap)[i]? = some d → ∃ d' a b, F d = .ok d' ∧ dni[i]? = some a ∧ dhi[i]? = some b ∧
+        ((List.zip ((contDts ap).map F) (List.zip dni dhi)).map lineOf)[i]? = some (fmtLine d' a b) := by
+      intro i d hd
+      have hi : i < (contDts ap).length := by
+        rcases Nat.lt_or_ge i (contDts ap).length with h | h
+        · exact h
+        · rw [List.getElem?_eq_none_iff.mpr h] at hd; cases hd
+      obtain ⟨d', h1, _⟩ := public_ok ap hwf onHour d (List.mem_of_getElem? hd)
+      have ha : dni[i]? = some dni[i] := List.getElem?_eq_getElem (by omega)
+      have hb : dhi[i]? = some dhi[i] := List.getElem?_eq_getElem (by omega)
+      refine ⟨d', _, _, h1, ha, hb, ?_⟩
+      rw [List.getElem?_map, zip3_getElem? _ _ _ i (F d) _ _ (by rw [List.getElem?_map, hd]; rfl) ha hb]
+      have hF : F d = .ok d' := h1
+      simp only [Option.map_some, lineOf, dtGet, hF]
+    set lines := (List.zip ((contDts ap).map F) (List.zip dni dhi)).map lineOf with hlines_def
+    have hll : lines.length = ap.moys.length := by
+      simp [hlines_def, List.length_zip, hcl, l1, l2, hlen]
+    obtain ⟨hpos, hfst, hlst⟩ := moys_first_last ap hwf h0 h23
+    have hSc := step_cases ap hwf
+    have hS60 : ap.step ≤ 60 := by rcases hSc with e | e | e | e | e | e | e | e | e | e | e | e <;> omega
+    -- first and last collection datetime
+    have hm := contDts_moys ap hwf
+    have g0 : ∃ d0, (contDts ap)[0]? = some d0 ∧ d0.moy = ap.stMoy := by
+      have : ((contDts ap).map DT.moy)[0]? = some ap.stMoy := by rw [hm]; exact hfst
+      rw [List.getElem?_map] at this
+      cases h : (contDts ap)[0]? with
+      | none => rw [h] at this; cases this
+      | some d0 => rw [h] at this; exact ⟨d0, rfl, by simpa using this⟩
+    have gn : ∃ dn, (contDts ap)[ap.moys.length - 1]? = some dn ∧ dn.moy = ap.endMoy + 60 - ap.step := by
+      have : ((contDts ap).map DT.moy)[ap.moys.length - 1]? = some (ap.endMoy + 60 - ap.step) := by rw [hm]; exact hlst
+      rw [List.getElem?_map] at this
+      cases h : (contDts ap)[ap.moys.length - 1]? with
+      | none => rw [h] at this; cases this
+      | some dn => rw [h] at this; exact ⟨dn, rfl, by simpa using this⟩
+    obtain ⟨d0, hd0, hm0⟩ := g0
+    obtain ⟨dn, hdn, hmn⟩ := gn
+    obtain ⟨d0', a0, b0, hF0, _, _, hl0⟩ := idx 0 d0 hd0
+    obtain ⟨dn', an, bn, hFn, _, _, hln⟩ := idx _ dn hdn
+    have hlp0 := (contDts_valid ap hwf d0 (List.mem_of_getElem? hd0)).2.1
+    have hlpn := (contDts_valid ap hwf dn (List.mem_of_getElem? hdn)).2.1
+    obtain ⟨e1, _, q1, _, r1, r2, r3, _, _, _⟩ := C12_file_first_last ap hwf h0 h23 onHour a0 b0
+    obtain ⟨_, e2, _, q2, _, _, _, t1, t2, t3⟩ := C12_file_first_last ap hwf h0 h23 onHour an bn
+    have hE0 : d0' = e1 := by
+      have : F d0 = .ok e1 := by simp only [F]; rw [hlp0, hm0]; exact q1
+      rw [hF0] at this; cases this; rfl
+    have hEn : dn' = e2 := by
+      have hnat : dn.moy + shift ap.timestep onHour = ap.endMoy + (60 - ap.step) + shift ap.timestep onHour := by
+        rw [hmn]; omega
+      have : F dn = .ok e2 := by simp only [F]; rw [hlpn, hnat]; exact q2
+      rw [hFn] at this; cases this; rfl
+    subst hE0; subst hEn
+    have hhead : lines.head? = some (fmtLine d0' a0 b0) := by rw [List.head?_eq_getElem?]; exact hl0
+    have hlast : lines.getLast? = some (fmtLine dn' an bn) := by
+      rw [List.getLast?_eq_getElem?, hll]; exact hln
+    have hread := C12_file_read_continuous prod60 ap hwf h0 h23 lines _ _ hhead hlast
+      ⟨r1, r2, r3⟩ ⟨t1, t2, t3⟩ (by rw [hll, hlen])
+    rw [hread]
+    have hv1 : lines.map (·.v1) = dni.map Py.truncRat := by
+      apply List.ext_getElem?
+      intro i
+      rcases Nat.lt_or_ge i ap.moys.length with hi | hi
+      · have hd : (contDts ap)[i]? = some (contDts ap)[i] := List.getElem?_eq_getElem (by omega)
+        obtain ⟨d', a, b, _, ha, _, hl⟩ := idx i _ hd
+        rw [List.getElem?_map, hl, List.getElem?_map, ha]; rfl
+      · rw [List.getElem?_eq_none_iff.mpr (by simp; omega), List.getElem?_eq_none_iff.mpr (by simp; omega)]
+    have hv2 : lines.map (·.v2) = dhi.map Py.truncRat := by
+      apply List.ext_getElem?
+      intro i
+      rcases Nat.lt_or_ge i ap.moys.length with hi | hi
+      · have hd : (contDts ap)[i]? = some (contDts ap)[i] := List.getElem?_eq_getElem (by omega)
+        obtain ⟨d', a, b, _, _, hb, hl⟩ := idx i _ hd
+        rw [List.getElem?_map, hl, List.getElem?_map, hb]; rfl
+      · rw [List.getElem?_eq_none_iff.mpr (by simp; omega), List.getElem?_eq_none_iff.mpr (by simp; omega)]
+    rw [hv1, hv2]
+
+/-- **Annual data, file round trip** (instance of the previous theorem for `from_annual_values`,
+    hence for the clear-sky, DAYSIM and hourly EPW constructors): one line per step of the year, read
+    back as the annual continuous Wea of the same timestep and leap flag with the same datetimes and
+    the truncated values. -/
+theorem C12_file_roundtrip_annual (prod60 : Nat → Rat) (ts : Nat) (hts : ts ∈ Gen.Ap.validTimesteps) (leap : Bool)
+    (dni dhi : List Rat) (onHour : Bool) (w : W Rat) (h : fromAnnualValues dni dhi (ts : Int) leap = .ok w) :
+    ∃ lines, toLines { w with onHour := onHour } = .ok lines ∧ lines.length = hoursInYear leap * ts ∧
+      fromFile prod60 (ts : Int) leap lines =
+        .ok ⟨true, AP.annual leap ts, w.dts, dni.map Py.truncRat, dhi.map Py.truncRat, false⟩ := by
+  obtain ⟨hwf, _⟩ := annual_facts ts hts leap
+  obtain ⟨_, _, _, _, _, _, _, hn, _⟩ := C12_time_axis ts hts leap dni dhi w h
+  have h' : mkCont (AP.annual leap ts) dni dhi = .ok w := by
+    have := h
+    unfold fromAnnualValues at this
+    rw [annualAP_ok ts hts leap] at this
+    exact this
+  obtain ⟨l1, _, hw⟩ := mkCont_inv _ _ _ _ h'
+  obtain ⟨lines, a, b, c⟩ := C12_file_roundtrip_continuous prod60 (AP.annual leap ts) hwf rfl rfl dni dhi onHour w h'
+  have hd : w.dts = contDts (AP.annual leap ts) := by rw [hw]
+  exact ⟨lines, a, by rw [b, ← l1, hn], by rw [hd]; exact c⟩
+
+/-- The public datetime of a collection step as a date-time (`minute + shift`). -/
+def pubDT (ts : Nat) (onHour : Bool) (d : DT) : DT := { d with minute := d.minute + shift ts onHour }
+
+theorem pubDT_ok (ts : Nat) (onHour : Bool) (d : DT) (hv : d.valid) (hmin : ts = 1 → d.minute = 0) :
+    (pubDT ts onHour d).valid ∧
+    fromMoy d.leap ((d.moy + shift ts onHour : Nat) : Int) = .ok (pubDT ts onHour d) := by
+  obtain ⟨h1, h2, h3, h4, h5, h6⟩ := hv
+  have hs : d.minute + shift ts onHour ≤ 59 := by
+    unfold shift; split
+    · rename_i h; rw [hmin h.1]; omega
+    · omega
+  have hv' : (pubDT ts onHour d).valid := ⟨h1, h2, h3, h4, h5, hs⟩
+  refine ⟨hv', ?_⟩
+  have := C08_moy_fromMoy _ hv'
+  have hm : (pubDT ts onHour d).moy = d.moy + shift ts onHour := by
+    simp [pubDT, DT.moy, DT.intHoy, DT.doy]; omega
+  rw [hm] at this
+  exact this
+
+theorem read_pub_line (ts : Nat) (onHour : Bool) (d : DT) (hv : d.valid) (hmin : ts = 1 → d.minute = 0) (a b : Rat) :
+    lineDT prod60Exact (ts : Int) d.leap (fmtLine (pubDT ts onHour d) a b) = .ok d := by
+  obtain ⟨hv', _⟩ := pubDT_ok ts onHour d hv hmin
+  by_cases h : ts = 1
+  · subst h
+    have := C12_line_roundtrip_hourly (pubDT 1 onHour d) hv' a b
+    have e : ({ pubDT 1 onHour d with minute := 0 } : DT) = d := by
+      have := hmin rfl
+      cases d; simp_all [pubDT]
+    rw [e] at this
+    exact this
+  · have hs : shift ts onHour = 0 := by simp [shift, h]
+    have e : pubDT ts onHour d = d := by cases d; simp [pubDT, hs]
+    rw [e]
+    exact C12_line_roundtrip d hv (ts : Int) (by exact_mod_cast h) a b
+
+theorem sparse_lines_aux (F : DT → Except Cal.Err DT) (P : DT → DT) (R : Line → Except E DT) :
+    ∀ (dts : List DT) (dni dhi : List Rat), dni.length = dts.length → dhi.length = dts.length →
+      (∀ d ∈ dts, F d = .ok (P d)) → (∀ d ∈ dts, ∀ a b, R (fmtLine (P d) a b) = .ok d) →
+      ((List.zip (dts.map F) (List.zip dni dhi)).map lineOf).mapM R = .ok dts ∧
+      ((List.zip (dts.map F) (List.zip dni dhi)).map lineOf).map (fun l => (l.v1, l.v2))
+        = List.zip (dni.map Py.truncRat) (dhi.map Py.truncRat) ∧
+      ((List.zip (dts.map F) (List.zip dni dhi)).map lineOf).length = dts.length
+  | [], dni, dhi, h1, h2, _, _ => by
+    have : dni = [] := List.eq_nil_of_length_eq_zero h1
+    subst this
+    simp
+    rfl
+  | d :: ds, [], _, h1, _, _, _ => by simp at h1
+  | d :: ds, _ :: _, [], _, h2, _, _ => by simp at h2
+  | d :: ds, a :: as, b :: bs, h1, h2, hF, hR => by
+    have ih := sparse_lines_aux F P R ds as bs (by simpa using h1) (by simpa using h2)
+      (fun x hx => hF x (List.mem_cons_of_mem _ hx)) (fun x hx => hR x (List.mem_cons_of_mem _ hx))
+    have hFd := hF d (by simp)
+    have hRd := hR d (by simp) a b
+    have hl : lineOf (F d, a, b) = fmtLine (P d) a b := by simp [lineOf, dtGet, hFd]
+    simp only [List.map_cons, List.zip_cons_cons, hl]
+    refine ⟨?_, ?_, ?_⟩
+    · rw [List.mapM_cons, hRd, ih.1]; rfl
+    · rw [ih.2.1]; rfl
+    · simp [ih.2.2]
+
+theorem zip3_maps {α β γ : Type} : ∀ (x : List α) (y : List β) (z : List γ), y.length = x.length → z.length = x.length →
+    (List.zip x (List.zip y z)).map (·.1) = x ∧ (List.zip x (List.zip y z)).map (·.2.1) = y ∧
+    (List.zip x (List.zip y z)).map (·.2.2) = z
+  | [], y, z, h1, h2 => by
+    have : y = [] := List.eq_nil_of_length_eq_zero h1
+    have : z = [] := List.eq_nil_of_length_eq_zero h2
+    subst_vars; simp
+  | _ :: _, [], _, h1, _ => by simp at h1
+  | _ :: _, _ :: _, [], _, h2 => by simp at h2
+  | a :: x, b :: y, c :: z, h1, h2 => by
+    obtain ⟨i1, i2, i3⟩ := zip3_maps x y z (by simpa using h1) (by simpa using h2)
+    simp [i1, i2, i3]
+
+
+theorem lines_getElem? (F : DT → Except Cal.Err DT) (P : DT → DT) (dts : List DT) (dni dhi : List Rat)
+    (h1 : dni.length = dts.length) (h2 : dhi.length = dts.length) (hF : ∀ d ∈ dts, F d = .ok (P d))
+    (i : Nat) (d : DT) (hd : dts[i]? = some d) :
+    ∃ a b, ((List.zip (dts.map F) (List.zip dni dhi)).map lineOf)[i]? = some (fmtLine (P d) a b) := by
+  have hi : i < dts.length := by
+    rcases Nat.lt_or_ge i dts.length with h | h
+    · exact h
+    · rw [List.getElem?_eq_none_iff.mpr h] at hd; cases hd
+  have ha : dni[i]? = some dni[i] := List.getElem?_eq_getElem (by omega)
+  have hb : dhi[i]? = some dhi[i] := List.getElem?_eq_getElem (by omega)
+  refine ⟨dni[i], dhi[i], ?_⟩
+  rw [List.getElem?_map, zip3_getElem? _ _ _ i (F d) _ _ (by rw [List.getElem?_map, hd]; rfl) ha hb]
+  have hFd := hF d (List.mem_of_getElem? hd)
+  simp only [Option.map_some, lineOf, dtGet, hFd]
+
+/-- **Write → read of sparse (windowed / filtered / discontinuous) data, at the model level**: for
+    chronologically ordered rows (strictly increasing datetimes – what filters of ordered sources
+    produce; for other orders the reader sorts, see `C12_file_sparse_sorted`) whose hourly steps
+    are whole hours, `to_file_string` followed by `from_file` returns exactly the same rows: every
+    datetime, and the `%d` truncation of both values, each at its own step; discontinuous again;
+    timestep and leap flag as given.  The header period is re-derived (`rederivedAP`).
+    Hypothesis `hno`: the rows are not mistaken for a whole-day run (first step in hour 0, last in
+    hour 23 and exactly as many rows as that span has steps). -/
+theorem C12_file_roundtrip_sparse (w : W Rat) (hc : w.cont = false)
+    (hts : w.ap.timestep ∈ Gen.Ap.validTimesteps) (hv : ∀ d ∈ w.dts, d.valid ∧ d.leap = w.ap.leap)
+    (hmin : w.ap.timestep = 1 → ∀ d ∈ w.dts, d.minute = 0) (hal : w.Aligned)
+    (hsort : w.dts.Pairwise (fun a b => a.moy < b.moy))
+    (first last : DT) (hf : w.dts.head? = some first) (hl : w.dts.getLast? = some last)
+    (hno : ¬ ((spanAP first last w.ap.timestep w.ap.leap).len = w.dni.length ∧ first.hour = 0 ∧ last.hour = 23)) :
+    ∃ lines, toLines w = .ok lines ∧ lines.length = w.dts.length ∧
+      fromFile prod60Exact (w.ap.timestep : Int) w.ap.leap lines =
+        .ok ⟨false, rederivedAP first last w.ap.timestep w.ap.leap w.dni.length, w.dts,
+             w.dni.map Py.truncRat, w.dhi.map Py.truncRat, false⟩ := by
+  obtain ⟨c, ap, dts, dni, dhi, oh⟩ := w
+  simp only at hc hts hv hmin hal hsort hf hl hno ⊢
+  subst hc
+  obtain ⟨a1, a2⟩ := hal
+  simp only at a1 a2
+  let F : DT → Except Cal.Err DT := fun d => fromMoy d.leap ((d.moy + shift ap.timestep oh : Nat) : Int)
+  have hF : ∀ d ∈ dts, F d = .ok (pubDT ap.timestep oh d) := fun d hd => (pubDT_ok ap.timestep oh d (hv d hd).1 (fun h => hmin h d hd)).2
+  have hR : ∀ d ∈ dts, ∀ a b, lineDT prod60Exact (ap.timestep : Int) ap.leap (fmtLine (pubDT ap.timestep oh d) a b) = .ok d := by
+    intro d hd a b
+    have := read_pub_line ap.timestep oh d (hv d hd).1 (fun h => hmin h d hd) a b
+    rw [(hv d hd).2] at this
+    exact this
+  have hD : (⟨false, ap, dts, dni, dhi, oh⟩ : W Rat).datetimes = dts.map F := rfl
+  have hall : ∀ r ∈ (⟨false, ap, dts, dni, dhi, oh⟩ : W Rat).datetimes, ∃ d, r = .ok d := by
+    intro r hr
+    rw [hD, List.mem_map] at hr
+    obtain ⟨d, hd, rfl⟩ := hr
+    exact ⟨pubDT ap.timestep oh d, hF d hd⟩
+  have hlines := toLines_eq _ hall
+  rw [hD] at hlines
+  simp only at hlines
+  obtain ⟨m1, m2, m3⟩ := sparse_lines_aux F (pubDT ap.timestep oh) (lineDT prod60Exact (ap.timestep : Int) ap.leap) dts dni dhi a1 a2 hF hR
+  set lines := (List.zip (dts.map F) (List.zip dni dhi)).map lineOf with hldef
+  refine ⟨lines, hlines, m3, ?_⟩
+  -- first / last line
+  have hfm : first ∈ dts := List.mem_of_head? hf
+  have hlm : last ∈ dts := List.mem_of_getLast? hl
+  obtain ⟨vf, lf⟩ := hv first hfm
+  obtain ⟨vl, ll⟩ := hv last hlm
+  obtain ⟨af, bf, hl0⟩ := lines_getElem? F (pubDT ap.timestep oh) dts dni dhi a1 a2 hF 0 first (by rw [← List.head?_eq_getElem?]; exact hf)
+  obtain ⟨al, bl, hln⟩ := lines_getElem? F (pubDT ap.timestep oh) dts dni dhi a1 a2 hF (dts.length - 1) last
+    (by rw [← List.getLast?_eq_getElem?]; exact hl)
+  have hhead : lines.head? = some (fmtLine (pubDT ap.timestep oh first) af bf) := by rw [List.head?_eq_getElem?]; exact hl0
+  have hlast : lines.getLast? = some (fmtLine (pubDT ap.timestep oh last) al bl) := by rw [List.getLast?_eq_getElem?, m3]; exact hln
+  have pvf := (pubDT_ok ap.timestep oh first vf (fun h => hmin h first hfm)).1
+  have pvl := (pubDT_ok ap.timestep oh last vl (fun h => hmin h last hlm)).1
+  have mf := minuteFact_of_lt (pubDT ap.timestep oh first).hour (pubDT ap.timestep oh first).minute (by have := pvf.2.2.2.2.1; omega) (by have := pvf.2.2.2.2.2; omega)
+  have ml := minuteFact_of_lt (pubDT ap.timestep oh last).hour (pubDT ap.timestep oh last).minute (by have := pvl.2.2.2.2.1; omega) (by have := pvl.2.2.2.2.2; omega)
+  simp only [minuteFact, Bool.and_eq_true, beq_iff_eq, decide_eq_true_eq] at mf ml
+  have hmf : (fmtLine (pubDT ap.timestep oh first) af bf).milli / 1000 = first.hour := mf.1.1.1.1.1
+  have hml : (fmtLine (pubDT ap.timestep oh last) al bl).milli / 1000 = last.hour := ml.1.1.1.1.1
+  -- the two DateTimes of the first and last line
+  let f0 : DT := ⟨first.month, first.day, first.hour, 0, ap.leap⟩
+  let l0 : DT := ⟨last.month, last.day, last.hour, 0, ap.leap⟩
+  have vf0 : f0.valid := by obtain ⟨b1, b2, b3, b4, b5, _⟩ := vf; rw [lf] at b4; exact ⟨b1, b2, b3, b4, b5, by simp [f0]⟩
+  have vl0 : l0.valid := by obtain ⟨b1, b2, b3, b4, b5, _⟩ := vl; rw [ll] at b4; exact ⟨b1, b2, b3, b4, b5, by simp [l0]⟩
+  have mk1 : DT.make (fmtLine (pubDT ap.timestep oh first) af bf).month (fmtLine (pubDT ap.timestep oh first) af bf).day
+      ((fmtLine (pubDT ap.timestep oh first) af bf).milli / 1000) 0 ap.leap = .ok f0 := by
+    rw [hmf]; exact make_of_valid f0 vf0
+  have mk2 : DT.make (fmtLine (pubDT ap.timestep oh last) al bl).month (fmtLine (pubDT ap.timestep oh last) al bl).day
+      ((fmtLine (pubDT ap.timestep oh last) al bl).milli / 1000) 0 ap.leap = .ok l0 := by
+    rw [hml]; exact make_of_valid l0 vl0
+  obtain ⟨_, hmk⟩ := spanAP_mk f0 l0 vf0 vl0 ap.timestep hts ap.leap rfl rfl
+  have hspan : spanAP f0 l0 ap.timestep ap.leap = spanAP first last ap.timestep ap.leap := rfl
+  rw [hspan] at hmk
+  have hap : deriveAP f0 l0 (ap.timestep : Int) ap.leap = .ok (spanAP first last ap.timestep ap.leap) := by
+    unfold deriveAP; rw [hmk]; rfl
+  have hann := annualAP_ok ap.timestep hts ap.leap
+  have hsorted : (List.zip dts (List.zip (dni.map Py.truncRat) (dhi.map Py.truncRat))).Pairwise
+      (fun a b => a.1.moy < b.1.moy) := pairwise_zip_fst (fun a b => a.moy < b.moy) dts _ hsort
+  have hval := validateRows_of_sorted _ hsorted
+  have hsp : (spanAP first last ap.timestep ap.leap).st_hour = first.hour ∧
+      (spanAP first last ap.timestep ap.leap).end_hour = last.hour := ⟨rfl, rfl⟩
+  obtain ⟨z1, z2, z3⟩ := zip3_maps dts (dni.map Py.truncRat) (dhi.map Py.truncRat) (by simp [a1]) (by simp [a2])
+  unfold fromFile
+  simp only [hhead, hlast, mk1, mk2, liftCal, bind, Except.bind, hap, m3]
+  by_cases hlen : (spanAP first last ap.timestep ap.leap).len = dts.length
+  · have hw : ¬ (first.hour = 0 ∧ last.hour = 23) := fun h => hno ⟨by rw [hlen, a1], h⟩
+    simp only [hlen, true_and, if_true, pure, Except.pure, m1, m2]
+    split_ifs with hcnd
+    · simp only [hval, z1, z2, z3, rederivedAP, a1, hlen, if_true]
+    · exfalso; apply hw; rw [hsp.1, hsp.2] at hcnd; omega
+  · simp only [hlen, false_and, if_false, hann, m1, m2, hval, z1, z2, z3, rederivedAP, a1]
+
+
+/-- **Sparse data in any order: rows as a sorted set.**  Whatever the order of the lines, the rows
+    `from_file` keeps on the sparse path are the same multiset of (datetime, direct, diffuse) rows in
+    strictly increasing time order; a repeated datetime is rejected (`AssertionError`).  (For a
+    header period that wraps the year end the code afterwards rotates the list to start at the period
+    start: C13, compared as sets by the check.) -/
+theorem C12_file_sparse_sorted {β : Type} (l s : List (DT × β)) (h : validateRows l = .ok s) :
+    s.Perm l ∧ s.Pairwise (fun a b => a.1.moy < b.1.moy) := validateRows_spec l s h
+
 /-! ### Dictionary round trip -/
 
 /-- **Annual data, dictionary round trip**: `from_dict(to_dict(w))` is `w` – same period
@@ -471,5 +788,237 @@ theorem C12_dict_roundtrip_annual {α : Type} (ts : Nat) (hts : ts ∈ Gen.Ap.va
   simp only [toDict, e3, AP.annual, Option.getD_some, e1, e2]
   unfold fromAnnualValues at h
   simpa [AP.annual] using h
+
+/-- **Dictionary round trip, continuous data** (annual and partial whole-day periods, wrapping or
+    not, all timesteps, leap or not): `from_dict(to_dict(w)) = w`. -/
+theorem C12_dict_roundtrip_continuous {α : Type} (ap : AP) (hwf : ap.WF) (h0 : ap.st_hour = 0) (h23 : ap.end_hour = 23)
+    (dni dhi : List α) (w : W α) (hw : mkCont ap dni dhi = .ok w) : fromDict (toDict w) = .ok w := by
+  obtain ⟨l1, l2, hw'⟩ := mkCont_inv ap dni dhi w hw
+  have hts := hwf.2.2
+  cases han : ap.isAnnual with
+  | true =>
+    have hap := eq_annual_of_isAnnual ap han
+    have hd : (toDict w).datetimes = none := by simp [toDict, W.isAnnual, hw', han]
+    unfold fromDict
+    simp only [hd]
+    simp only [toDict, hw', Option.getD_some]
+    have := annualAP_ok ap.timestep hts ap.leap
+    rw [this, ← hap]
+    simp only [bind, Except.bind]
+    rw [hw, hw']
+  | false =>
+    obtain ⟨hpos, hfst, hlst⟩ := moys_first_last ap hwf h0 h23
+    have hSc := step_cases ap hwf
+    have hS60 : ap.step ≤ 60 ∧ 0 < ap.step := by rcases hSc with e | e | e | e | e | e | e | e | e | e | e | e <;> omega
+    have hm := contDts_moys ap hwf
+    let dE : DT := ⟨ap.end_month, ap.end_day, 23, 60 - ap.step, ap.leap⟩
+    have hvE : dE.valid := by
+      obtain ⟨w1, w2, w3, w4, _, _⟩ := hwf.2.1
+      exact ⟨w1, w2, w3, w4, by simp [dE], by simp [dE]; omega⟩
+    have hmE : dE.moy = ap.endMoy + 60 - ap.step := by
+      simp [dE, AP.endMoy, AP.endTime, DT.moy, DT.intHoy, DT.doy, h23]; omega
+    have g0 : (contDts ap)[0]? = some ap.stTime := by
+      have : ((contDts ap).map DT.moy)[0]? = some ap.stMoy := by rw [hm]; exact hfst
+      rw [List.getElem?_map] at this
+      cases h : (contDts ap)[0]? with
+      | none => rw [h] at this; cases this
+      | some d0 =>
+        rw [h] at this
+        obtain ⟨v, l, _⟩ := contDts_valid ap hwf d0 (List.mem_of_getElem? h)
+        have hm0 : d0.moy = ap.stMoy := by simpa using this
+        rw [dt_eq_of_moy d0 ap.stTime v hwf.1 l hm0]
+    have gn : (contDts ap)[(contDts ap).length - 1]? = some dE := by
+      rw [contDts_length ap hwf]
+      have : ((contDts ap).map DT.moy)[ap.moys.length - 1]? = some (ap.endMoy + 60 - ap.step) := by rw [hm]; exact hlst
+      rw [List.getElem?_map] at this
+      cases h : (contDts ap)[ap.moys.length - 1]? with
+      | none => rw [h] at this; cases this
+      | some dn =>
+        rw [h] at this
+        obtain ⟨v, l, _⟩ := contDts_valid ap hwf dn (List.mem_of_getElem? h)
+        have hmn : dn.moy = ap.endMoy + 60 - ap.step := by simpa using this
+        rw [dt_eq_of_moy dn dE v hvE l (by rw [hmE]; exact hmn)]
+    have hd : (toDict w).datetimes = some ((contDts ap).map DT.toArray) := by simp [toDict, W.isAnnual, hw', han]
+    have hh : ((contDts ap).map DT.toArray).head? = some ap.stTime.toArray := by
+      rw [List.head?_map, List.head?_eq_getElem?, g0]; rfl
+    have hl : ((contDts ap).map DT.toArray).getLast? = some dE.toArray := by
+      rw [List.getLast?_map, List.getLast?_eq_getElem?, gn]; rfl
+    have hdup : AP.mk? ap.st_month ap.st_day ap.st_hour ap.end_month ap.end_day 23 ap.timestep ap.leap = .ok ap := by
+      have := AP.C04_mk_accepts ap hwf
+      unfold AP.duplicate at this
+      rw [h23] at this
+      exact_mod_cast this
+    unfold fromDict
+    simp only [hd, hh, hl]
+    simp only [toDict, hw', Option.getD_some, arrDT_toArray _ hwf.1, arrDT_toArray _ hvE, bind, Except.bind]
+    have e1 : ap.stTime.leap = ap.leap := rfl
+    have e2 : dE.leap = ap.leap := rfl
+    simp only [e1, e2, ne_eq, not_true_eq_false, if_false, pure, Except.pure]
+    have e3 : ap.stTime.month = ap.st_month := rfl
+    have e4 : ap.stTime.day = ap.st_day := rfl
+    have e5 : ap.stTime.hour = ap.st_hour := rfl
+    have e6 : dE.month = ap.end_month := rfl
+    have e7 : dE.day = ap.end_day := rfl
+    have e8 : dE.hour = 23 := rfl
+    simp only [e3, e4, e5, e6, e7, e8, Nat.cast_ofNat, hdup, liftCal]
+    have hc : ap.len = dni.length ∧ ¬ (ap.st_hour ≠ 0 ∨ ap.end_hour ≠ 23) := ⟨l1.symm, by simp [h0, h23]⟩
+    simp only [hc, if_true]
+    rw [hw, hw']
+    simp
+
+/-- **Dictionary round trip, discontinuous (windowed / sparse / filtered) data**: the rows –
+    datetimes and both value lists, in their order – timestep and leap flag come back unchanged.
+    The header period is re-derived from the first and last datetime (kept when it has as many steps
+    as there are values, else the annual period) – it is not part of the dictionary.
+    Hypothesis `hno`: the data is not mistaken for a whole-day run, i.e. NOT (first datetime in hour
+    0, last in hour 23 and exactly as many values as that span has steps); for chronologically
+    ordered on-grid data that case only arises when the data *is* the whole-day run. -/
+theorem C12_dict_roundtrip_sparse {α : Type} (w : W α) (hc : w.cont = false) (hoh : w.onHour = false)
+    (hts : w.ap.timestep ∈ Gen.Ap.validTimesteps) (hv : ∀ d ∈ w.dts, d.valid ∧ d.leap = w.ap.leap)
+    (hal : w.Aligned) (first last : DT) (hf : w.dts.head? = some first) (hl : w.dts.getLast? = some last)
+    (hno : ¬ ((spanAP first last w.ap.timestep w.ap.leap).len = w.dni.length ∧ first.hour = 0 ∧ last.hour = 23)) :
+    fromDict (toDict w) = .ok { w with ap := rederivedAP first last w.ap.timestep w.ap.leap w.dni.length } := by
+  obtain ⟨c, ap, dts, dni, dhi, oh⟩ := w
+  simp only [rederivedAP] at hc hoh hts hv hal hf hl hno ⊢
+  subst hc; subst hoh
+  have hfm : first ∈ dts := List.mem_of_head? hf
+  have hlm : last ∈ dts := List.mem_of_getLast? hl
+  obtain ⟨vf, lf⟩ := hv first hfm
+  obtain ⟨vl, ll⟩ := hv last hlm
+  obtain ⟨hwf, hmk⟩ := spanAP_mk first last vf vl ap.timestep hts ap.leap lf ll
+  have hd : (toDict (⟨false, ap, dts, dni, dhi, false⟩ : W α)).datetimes = some (dts.map DT.toArray) := by
+    simp [toDict, W.isAnnual]
+  have hh : (dts.map DT.toArray).head? = some first.toArray := by rw [List.head?_map, hf]; rfl
+  have hl' : (dts.map DT.toArray).getLast? = some last.toArray := by rw [List.getLast?_map, hl]; rfl
+  unfold fromDict
+  simp only [hd, hh, hl']
+  simp only [toDict, Option.getD_some, arrDT_toArray _ vf, arrDT_toArray _ vl, bind, Except.bind]
+  simp only [lf, ll, ne_eq, not_true_eq_false, if_false, pure, Except.pure, hmk, liftCal]
+  have hspan : (spanAP first last ap.timestep ap.leap).st_hour = first.hour ∧
+      (spanAP first last ap.timestep ap.leap).end_hour = last.hour := ⟨rfl, rfl⟩
+  have hann := annualAP_ok ap.timestep hts ap.leap
+  have hmap := mapM_arrDT dts (fun d hd => (hv d hd).1)
+  obtain ⟨a1, a2⟩ := hal
+  simp only at a1 a2
+  by_cases hlen : (spanAP first last ap.timestep ap.leap).len = dni.length
+  · have hw : ¬ (first.hour = 0 ∧ last.hour = 23) := fun h => hno ⟨hlen, h⟩
+    have hcond : ¬ ((spanAP first last ap.timestep ap.leap).len = dni.length ∧
+        ¬ ((spanAP first last ap.timestep ap.leap).st_hour ≠ 0 ∨ (spanAP first last ap.timestep ap.leap).end_hour ≠ 23)) := by
+      rw [hspan.1, hspan.2]; intro h; apply hw; have := h.2; omega
+    simp only [hlen, if_true, hmap]
+    simp [a1, a2]
+    intro h1 h2
+    exact absurd ⟨by rw [← hspan.1]; exact h1, by rw [← hspan.2]; exact h2⟩ hw
+  · have hcond : ¬ ((spanAP first last ap.timestep ap.leap).len = dni.length ∧
+        ¬ ((spanAP first last ap.timestep ap.leap).st_hour ≠ 0 ∨ (spanAP first last ap.timestep ap.leap).end_hour ≠ 23)) :=
+      fun h => hlen h.1
+    simp only [hcond, if_false, hlen, hann, hmap]
+    simp [a1, a2]
+
+/-! ### DAYSIM files, constant files, counting -/
+
+/-- **`from_daysim_file` shift**: for `timestep ≠ 1` the last `timestep / 2` values of each column
+    move to the front and everything else follows in order (nothing is lost or duplicated); for
+    `timestep = 1` the columns are unchanged. -/
+theorem C12_daysim_shift {α : Type} (ts : Nat) (l : List α) (hk : ts / 2 ≤ l.length) :
+    daysimShift 1 l = l ∧
+    (ts ≠ 1 → daysimShift ts l = l.drop (l.length - ts / 2) ++ l.take (l.length - ts / 2)) ∧
+    (daysimShift ts l).length = l.length ∧ (daysimShift ts l).Perm l := by
+  have h1 : daysimShift 1 l = l := by simp [daysimShift]
+  have h2 : ts ≠ 1 → daysimShift ts l = l.drop (l.length - ts / 2) ++ l.take (l.length - ts / 2) := by
+    intro hts
+    unfold daysimShift
+    simp only [hts, if_false]
+    unfold Py.slice Py.clampIdx
+    by_cases hz : ts / 2 = 0
+    · simp [hz]
+    · have hneg : ¬ (0 ≤ -((ts / 2 : Nat) : Int)) := by omega
+      have hle : (- -((ts / 2 : Nat) : Int)).toNat ≤ l.length := by omega
+      have he : (- -((ts / 2 : Nat) : Int)).toNat = ts / 2 := by omega
+      simp only [hneg, if_false, he, hk, if_true]
+      rw [List.take_of_length_le (by simp)]
+      simp
+  refine ⟨h1, h2, ?_, ?_⟩
+  · by_cases hts : ts = 1
+    · subst hts; rw [h1]
+    · rw [h2 hts]; simp
+  · by_cases hts : ts = 1
+    · subst hts; rw [h1]
+    · rw [h2 hts]
+      exact List.perm_append_comm.trans (by rw [List.take_append_drop])
+
+example : daysimShift 4 [0, 1, 2, 3, 4, 5, 6, 7] = [6, 7, 0, 1, 2, 3, 4, 5] := by decide
+
+/-- `from_daysim_file` is `from_annual_values` of the shifted columns: with `C12_time_axis`, line
+    `j` of a DAYSIM file of `n` lines sits at step `(j + timestep / 2) mod n` of the annual axis. -/
+theorem C12_daysim_axis (ts : Nat) (v1 v2 : List Int) (leap : Bool) :
+    fromDaysim v1 v2 (ts : Int) leap = fromAnnualValues (daysimShift ts v1) (daysimShift ts v2) (ts : Int) leap := by
+  unfold fromDaysim
+  have : ¬ ((ts : Int) < 0) := by omega
+  simp [this]
+
+/-- **`to_constant_value`**: every data line keeps its tokens except the last two, which become
+    the value (so month, day and hour of every step are untouched and the number of lines is the
+    same); a line with fewer than two tokens is the `IndexError`. -/
+theorem C12_to_constant (body : List (List String)) (v : Int) :
+    ((∀ t ∈ body, 2 ≤ t.length) →
+      toConstant body v = .ok (body.map fun t => t.dropLast.dropLast ++ [toString v, toString v])) ∧
+    (∀ out, toConstant body v = .ok out → out.length = body.length) ∧
+    (∀ t : List String, 2 ≤ t.length → (t.dropLast.dropLast ++ [toString v, toString v]).length = t.length ∧
+      (t.dropLast.dropLast ++ [toString v, toString v]).take (t.length - 2) = t.take (t.length - 2)) := by
+  have hmap : (∀ t ∈ body, 2 ≤ t.length) →
+      toConstant body v = .ok (body.map fun t => t.dropLast.dropLast ++ [toString v, toString v]) := by
+    intro h
+    unfold toConstant
+    apply mapM_eq_map
+    intro t ht
+    have := h t ht
+    unfold constLine
+    have : ¬ t.length < 2 := by omega
+    simp [this]
+  refine ⟨hmap, ?_, ?_⟩
+  · intro out ho
+    by_cases hall : ∀ t ∈ body, 2 ≤ t.length
+    · rw [hmap hall] at ho; cases ho; simp
+    · exfalso
+      -- some line is too short: the mapM fails
+      have : ∀ (b : List (List String)), (¬ ∀ t ∈ b, 2 ≤ t.length) → ∀ o, b.mapM (fun t => constLine t (toString v)) ≠ .ok o := by
+        intro b
+        induction b with
+        | nil => intro h; simp at h
+        | cons x xs ih =>
+          intro h o
+          rw [List.mapM_cons]
+          by_cases hx : 2 ≤ x.length
+          · have hxs : ¬ ∀ t ∈ xs, 2 ≤ t.length := by
+              intro hh; apply h; intro t ht; rw [List.mem_cons] at ht
+              rcases ht with rfl | ht
+              · exact hx
+              · exact hh t ht
+            have hc : constLine x (toString v) = .ok (x.dropLast.dropLast ++ [toString v, toString v]) := by
+              unfold constLine; have : ¬ x.length < 2 := by omega
+              simp [this]
+            rw [hc]
+            cases hm : List.mapM (fun t => constLine t (toString v)) xs with
+            | error e => simp [bind, Except.bind]
+            | ok o' => exact absurd hm (ih hxs o')
+          · have hc : constLine x (toString v) = .error .index := by
+              unfold constLine; have : x.length < 2 := by omega
+              simp [this]
+            rw [hc]; simp [bind, Except.bind]
+      exact this body hall out ho
+  · intro t ht
+    refine ⟨by simp; omega, ?_⟩
+    have hl : t.dropLast.dropLast.length = t.length - 2 := by simp; omega
+    rw [List.take_append_of_le_length (by omega), List.take_of_length_le (by omega)]
+    rw [List.dropLast_eq_take, List.dropLast_eq_take, List.take_take]
+    congr 1
+    simp; omega
+
+/-- **`count_timesteps`** is the number of data lines: six header lines are subtracted, so a file
+    written by `to_file_string` for `n` steps counts `n`, before and after `to_constant_value`. -/
+theorem C12_count_timesteps (n : Nat) : countTimesteps (6 + n) = n := by
+  unfold countTimesteps; omega
+
 
 end Wea
